@@ -261,46 +261,49 @@ Section WithSort.
       apply B. eapply firstn_In, skipn_In, firstn_In, Hk.
   Qed.
 
-  Lemma finish_ok : forall t off size rev,
-    match tier_verdict t, finish sort t off size rev with
+  Lemma finish_ok : forall t off size rev itv naggs,
+    match tier_verdict t, finish sort t off size rev itv naggs with
     | VErr k, SErr k' => k = k'
-    | VOk p qs, SOk p' out =>
+    | VOk p qs xs, SOk p' out r =>
         p = p' /\ page_ok rev (flat_map snd qs) off size (map fst out) = true /\ sources_ok qs out = true
+        /\ r = merge_rest sort qs xs rev itv naggs
     | _, _ => False
     end.
   Proof.
-    intros [p qs| | |] off size rev; simpl; auto. split; auto. apply finish_page.
+    intros [p qs xs| | |] off size rev itv naggs; simpl; auto. split; auto.
+    destruct (finish_page qs off size rev) as [A B]. auto.
   Qed.
 
-  Lemma search_ok : forall p1 p2 hot hotread cold off size rev,
-    match verdict_of p1 p2 hot hotread cold, search sort p1 p2 hot hotread cold off size rev with
+  Lemma search_ok : forall p1 p2 hot hotread cold off size rev itv naggs,
+    match verdict_of p1 p2 hot hotread cold, search sort p1 p2 hot hotread cold off size rev itv naggs with
     | VErr k, SErr k' => k = k'
-    | VOk p qs, SOk p' out =>
+    | VOk p qs xs, SOk p' out r =>
         p = p' /\ page_ok rev (flat_map snd qs) off size (map fst out) = true /\ sources_ok qs out = true
+        /\ r = merge_rest sort qs xs rev itv naggs
     | _, _ => False
     end.
   Proof.
     intros. unfold verdict_of, search.
     destruct (search_stores p1 match hotread with [] => hot | _ :: _ => hotread end) eqn:E.
-    - apply (finish_ok (TOk partial qs)).
+    - apply (finish_ok (TOk partial qs xs)).
     - destruct cold; simpl; auto. apply finish_ok.
     - apply (finish_ok TTooManyFrac).
     - apply (finish_ok TFail).
   Qed.
 
-  Lemma cold_fallback : forall p1 p2 hot hotread cold off size rev,
+  Lemma cold_fallback : forall p1 p2 hot hotread cold off size rev itv naggs,
     search_stores p1 (match hotread with [] => hot | _ => hotread end) = TWantsOld ->
     cold <> [] ->
-    search sort p1 p2 hot hotread cold off size rev = search sort p2 p2 cold [] [] off size rev.
+    search sort p1 p2 hot hotread cold off size rev itv naggs = search sort p2 p2 cold [] [] off size rev itv naggs.
   Proof.
-    intros p1 p2 hot hotread cold off size rev H NE. unfold search at 1. rewrite H.
+    intros p1 p2 hot hotread cold off size rev itv naggs H NE. unfold search at 1. rewrite H.
     unfold search. destruct cold as [|c cold]; [congruence|].
     destruct (search_stores p2 (c :: cold)); reflexivity.
   Qed.
 
-  Lemma no_cold_tier : forall p1 p2 hot hotread off size rev,
+  Lemma no_cold_tier : forall p1 p2 hot hotread off size rev itv naggs,
     search_stores p1 (match hotread with [] => hot | _ => hotread end) = TWantsOld ->
-    search sort p1 p2 hot hotread [] off size rev = SErr EWantsOld.
+    search sort p1 p2 hot hotread [] off size rev itv naggs = SErr EWantsOld.
   Proof. intros. unfold search. rewrite H. reflexivity. Qed.
 End WithSort.
 
@@ -339,7 +342,7 @@ Qed.
 Lemma search_stores_spec : forall prio shards,
   let rs := map search_shard shards in
   match search_stores prio shards with
-  | TOk p qs => qs = answers rs /\ existsb is_wo rs = false /\ existsb is_tmf rs = false
+  | TOk p qs xs => qs = answers rs /\ xs = extras rs /\ existsb is_wo rs = false /\ existsb is_tmf rs = false
                 /\ p = existsb is_fail rs /\ (p = true -> qs <> [])
   | TFail => existsb is_wo rs = false /\ existsb is_tmf rs = false
              /\ existsb is_fail rs = true /\ answers rs = []
@@ -357,7 +360,7 @@ Qed.
 
 Lemma search_shard_spec : forall sh,
   match search_shard sh with
-  | SAns s l => exists pre post, sh = pre ++ (s, BOk l) :: post /\ Forall (fun r => snd r = BErr) pre
+  | SAns s l x => exists pre post, sh = pre ++ (s, BOk l x) :: post /\ Forall (fun r => snd r = BErr) pre
   | SWantsOld => exists pre s post, sh = pre ++ (s, BWantsOld) :: post /\ Forall (fun r => snd r = BErr) pre
   | STooManyFrac => exists pre s post, sh = pre ++ (s, BTooManyFrac) :: post /\ Forall (fun r => snd r = BErr) pre
   | SFail => Forall (fun r => snd r = BErr) sh
@@ -367,7 +370,7 @@ Proof.
   induction sh as [|[s b] r IH]; simpl; auto.
   destruct b.
   - exists [], r; auto.
-  - destruct (search_shard r) as [s' l'| | |].
+  - destruct (search_shard r) as [s' l' x'| | |].
     + destruct IH as [pre [post [-> F]]]. exists ((s, BErr) :: pre), post; split; auto.
     + destruct IH as [pre [s' [post [-> F]]]]. exists ((s, BErr) :: pre), s', post; split; auto.
     + destruct IH as [pre [s' [post [-> F]]]]. exists ((s, BErr) :: pre), s', post; split; auto.
